@@ -2,6 +2,7 @@
 From Cctp Require Import Lib.Bytes Lib.SMap.
 From Cctp Require Import Model.State Model.Ledger Model.Handlers Model.Chain.
 From Cctp Require Import Proofs.MonadFacts Proofs.AdminFacts.
+From Cctp Require Import Gen.GoH_EnableAttester Gen.GoH_DisableAttester Gen.GoH_UpdateSignatureThreshold.
 
 (* 1 <= threshold <= number of enabled attesters (att_inv) is preserved by every transaction of every
    type with any arguments by any submitter, accepted or rejected.  The side condition is the point
@@ -53,6 +54,13 @@ Example C13_example :
   att_inv (set_threshold (Some 2%N) (set_attesters (insert (B "b/") (B "b") (insert (B "a/") (B "a") [])) empty_store)).
 Proof. exists 2%N. cbn. repeat split; lia. Qed.
 
+(* The three attester-set handlers as translated from the Go source are the model handlers the invariant is proved for (go_X_ok: forall e request h, eq_or_unmodelled (go_X e request h) (handler e (X request) h): same result and same state wherever the model gives a verdict at all, i.e. except on denominations outside the character set the model folds; for the two helpers the right-hand side is send_message / deposit_for_burn). The statement is about the Gallina program that tools/goextract TRANSLATED from the Go source of /repo on this run (Gen/GoH_*.v, Gen/GoF_*.v; meaning of the Go constructs: Gen/GoSem.v). For a function the translator could not read the conjunct is True (Gen/<file> names the reason, the evidence lists it) and the tie for it is the differential execution alone. *)
+Theorem C13_go_attester_handlers_are_the_model :
+  go_EnableAttester_ok /\
+  go_DisableAttester_ok /\
+  go_UpdateSignatureThreshold_ok.
+Proof. split; [exact go_EnableAttester_ok_proof|]. split; [exact go_DisableAttester_ok_proof|]. exact go_UpdateSignatureThreshold_ok_proof. Qed.
+
 Print Assumptions C13_inequality_preserved_by_every_transaction.
 Print Assumptions C13_inequality_holds_along_every_history.
 Print Assumptions C13_last_attester_cannot_be_disabled.
@@ -61,3 +69,4 @@ Print Assumptions C13_threshold_zero_rejected.
 Print Assumptions C13_threshold_above_count_rejected.
 Print Assumptions C13_enabling_enabled_attester_rejected.
 Print Assumptions C13_disabling_unknown_attester_rejected.
+Print Assumptions C13_go_attester_handlers_are_the_model.
